@@ -354,12 +354,12 @@ def main():
     # 3b. the word-level kernel is tied by translation (C01 only): regenerate from utils.rs, re-check the equalities with the
     #     model; if they no longer check, search (cvc5/z3) for words on which the new definition differs and run them through the API
     kernel = None
-    if prop == "C01":
+    if prop in ("C01", "C02"):
         import kernel_tie
-        kernel = kernel_tie.run(WORK)
+        kernel = kernel_tie.run(WORK, prop)
         lean["kernel_tie"] = kernel["status"]
         if kernel["status"] == "proved":
-            notes.append("word kernel (Integer::{mask,cadd,csub,wmul} x 6 word types): regenerated from utils.rs and proved equal to the model (24 equalities)")
+            notes.append("word kernel (the Integer::{mask,cadd,csub,wmul} functions of the 6 word types that this property's operations use): regenerated from utils.rs and proved equal to the model's")
         else:
             notes.append(f"word kernel tie by translation: {kernel['status']}; changed: {', '.join(kernel['changed'])}")
         if kernel["status"] == "counterexample":
